@@ -200,4 +200,10 @@ theorem loadGen_eq (v : Ver) (line : Str) : GenCodec.loadGen v line = .ok (decod
     by_cases hn : Gen.nodeIdMin ≤ node ∧ node ≤ Gen.nodeIdMax <;> cases hc : childIdOK v child cmd type <;>
       cases hm : commandOK v child cmd <;> by_cases ha : ack ∈ Gen.ackValues <;> simp [hn, hc, hm, ha]
 
+/-- **`MessageSchema.dump` assembled from the translated `to_string` is `encode`** (and never fails for a message). -/
+theorem dumpGen_eq (m : Msg) : GenCodec.dumpGen m = .ok (encode m) := by
+  have hk : pyCaught .KeyError [.KeyError] = true := by decide
+  simp [GenCodec.dumpGen, GenCodec.to_string, LC.dumpData, LC.mapFields, LC.bind, LC.catchV, fields_eq, List.lookup, encode,
+    joinWith, Gen.terminator]
+
 end AioMySensors.CodecBodiesEq
